@@ -273,6 +273,15 @@ func calculateValidatorSetUpdates(lastVals []*types.Validator, vals []*types.Val
 	if len(vals) == 0 {
 		return
 	}
+	seen := make(map[common.Address]struct{}, len(vals))
+	for _, val := range vals {
+		if _, dup := seen[val.Address]; dup {
+			// a validator reported twice: hand the whole report on, so that
+			// UpdateWithChangeSet rejects it whatever the order of its entries
+			return vals
+		}
+		seen[val.Address] = struct{}{}
+	}
 	last := make(map[common.Address]int64)
 	for _, validator := range lastVals {
 		last[validator.Address] = validator.VotingPower
